@@ -145,6 +145,9 @@ func (shares Shares) ReConstruct(ec elliptic.Curve) (secret *big.Int, err error)
 			}
 			sub := modN.Sub(xs[j], share.ID)
 			subInv := modN.ModInverse(sub)
+			if subInv == nil {
+				return nil, errors.New("vss: share ids are not distinct modulo the group order")
+			}
 			div := modN.Mul(xs[j], subInv)
 			times = modN.Mul(times, div)
 		}
